@@ -797,3 +797,58 @@ pub fn gen_drop_sweep(rng: &mut Rng) -> Program {
     prog.prespawn = pool_max > 0 && g.rng.permille(300);
     finish(prog, &g)
 }
+
+/// C13 with no free pool thread: every pool thread is stalled, one context suspends the queue, obtains the resumer
+/// and resumes, another calls sync (and more) during the suspension; whoever is there has to run the queue.
+pub fn gen_suspend_saturated(rng: &mut Rng) -> Program {
+    let pool_max = rng.range(1, 2) as usize;
+    let n_objs = pool_max + 1;
+    let mut g = Gen::new(rng, n_objs);
+    let o = 0;
+    let mut blockers = vec![];
+    let mut started = vec![];
+    for i in 0..pool_max {
+        let st = g.n_gates;
+        let gate = g.n_gates + 1;
+        g.n_gates += 2;
+        started.push(st);
+        blockers.push({ let __k = OpKind::Desync { o: 1 + i, body: vec![Step::OpenGate(st), Step::BlockOn(gate)] }; g.op(__k) });
+    }
+    let mut r = vec![];
+    let mut s_thread = vec![];
+    for st in &started {
+        r.push({ let __k = OpKind::WaitGate { g: *st }; g.op(__k) });
+        s_thread.push({ let __k = OpKind::WaitGate { g: *st }; g.op(__k) });
+    }
+    if g.rng.permille(400) {
+        r.push({ let __k = OpKind::Desync { o, body: vec![Step::Yield(1)] }; g.op(__k) });
+    }
+    let h = g.handle();
+    r.push({ let __k = OpKind::Suspend { o, h }; g.op(__k) });
+    r.push({ let __k = OpKind::Await { h }; g.op(__k) });
+    let y = g.rng.range(0, 4) as u8;
+    if y > 0 {
+        r.push({ let __k = OpKind::Yield(y); g.op(__k) });
+    }
+    r.push({ let __k = if g.rng.permille(700) { OpKind::Resume { h } } else { OpKind::DropResumer { h } }; g.op(__k) });
+    let y = g.rng.range(0, 5) as u8;
+    if y > 0 {
+        s_thread.push({ let __k = OpKind::Yield(y); g.op(__k) });
+    }
+    let n = g.rng.range(1, 3);
+    for _ in 0..n {
+        match g.rng.weighted(&[5, 2, 1]) {
+            0 => s_thread.push({ let __k = OpKind::Sync { o, body: vec![] }; g.op(__k) }),
+            1 => s_thread.push({ let __k = OpKind::Desync { o, body: vec![] }; g.op(__k) }),
+            _ => s_thread.push({ let __k = OpKind::TrySync { o, body: vec![] }; g.op(__k) }),
+        }
+    }
+    let mut threads = vec![blockers, r, s_thread];
+    if g.rng.permille(300) {
+        threads.push(vec![{ let __k = OpKind::Yield(2); g.op(__k) }, { let __k = OpKind::Sync { o, body: vec![] }; g.op(__k) }]);
+    }
+    let mut prog = base_program(pool_max, n_objs);
+    prog.phases = vec![Phase { ctl: vec![], threads, env_gates: vec![], env_streams: vec![] }];
+    prog.faults = Faults { spurious_cv_permille: if g.rng.permille(300) { 100 } else { 0 }, spurious_park_permille: if g.rng.permille(300) { 100 } else { 0 }, self_wake_permille: 0, dup_wake_permille: 0 };
+    finish(prog, &g)
+}
